@@ -62,6 +62,18 @@ func runC08(c *rules.Ctx) {
 	c.OnlyWhen(EM, "sdkmath.LegacyDec.Sub[1=cl.computeTotalIncentivesToEmit(...)#0]", "le(cl.computeTotalIncentivesToEmit(...)#0, _.IncentiveRecordBody.RemainingCoin.Amount)", "remaining is reduced only when it covers the emission")
 	c.CallArg(EM, "sdkmath.LegacyDec.Sub[1=cl.computeTotalIncentivesToEmit(...)#0]", 0, "_.IncentiveRecordBody.RemainingCoin.Amount", "remaining − emitted: exactly the emitted amount is deducted from the record's remaining coin")
 	c.BranchOn(EM, "ne(elem(_).MinUptime, accumUptime)", nil, "a record only feeds the accumulator of its own uptime")
+	clScalingRules(c)
+	// ---- forfeits
+	const PC = K + "prepareClaimAllIncentivesForPosition"
+	c.BranchOn(PC, "lt(time.Time.Sub(sdk.Context.BlockTime(ctx), cl.Keeper.GetPosition(k,ctx,positionId)#0.JoinTime), elem(@cltypes.SupportedUptimes))", nil, "the position's age (block time − join time) is compared with each uptime")
+	c.FailsWhen(PC, "lt(time.Time.Sub(sdk.Context.BlockTime(ctx), cl.Keeper.GetPosition(k,ctx,positionId)#0.JoinTime), 0)", "a negative position age is an error", rules.GuardOpt{})
+	clRedepositRules(c)
+}
+
+// clScalingRules: one scaling factor per accumulator family, used by growth and claim alike, with the documented
+// migration boundary (shared by C01 and C08).
+func clScalingRules(c *rules.Ctx) {
+	const K = "x/concentrated-liquidity.Keeper."
 	// ---- one scaling factor per accumulator family, the same when growing and when claiming
 	c.WhoMayCall(K+"getSpreadFactorScalingFactorForPool", []string{"cl.Keeper.computeOutAmtGivenIn", "cl.Keeper.computeInAmtGivenOut", "cl.Keeper.prepareClaimableSpreadRewards"}, "the spread-reward scaling factor is used by the two swap kinds (growth) and the spread-reward claim, and by nothing else")
 	c.WhoMayCall(K+"getIncentiveScalingFactorForPool", []string{"cl.Keeper.updateGivenPoolUptimeAccumulatorsToNow", "cl.Keeper.prepareClaimAllIncentivesForPosition"}, "the incentive scaling factor is used by emission and by the incentive claim, and by nothing else")
@@ -72,10 +84,19 @@ func runC08(c *rules.Ctx) {
 	c.HasCall(K+"prepareClaimableSpreadRewards", "cl.Keeper.getSpreadFactorScalingFactorForPool", []string{"k", "ctx", "cl.Keeper.GetPosition(k,ctx,positionId)#0.PoolId"}, true, "spread-reward claims are scaled down with the factor of the position's pool", "")
 	c.HasCall(K+"prepareClaimAllIncentivesForPosition", "cl.Keeper.getIncentiveScalingFactorForPool", []string{"k", "ctx", "cl.Keeper.GetPosition(k,ctx,positionId)#0.PoolId"}, true, "incentive claims are scaled down with the incentive factor of the position's pool", "")
 	c.HasCall(K+"updateGivenPoolUptimeAccumulatorsToNow", "cl.Keeper.getIncentiveScalingFactorForPool", []string{"k", "ctx", "_"}, false, "emission is scaled with the incentive factor", "")
-	// ---- forfeits
-	const PC = K + "prepareClaimAllIncentivesForPosition"
-	c.BranchOn(PC, "lt(time.Time.Sub(sdk.Context.BlockTime(ctx), cl.Keeper.GetPosition(k,ctx,positionId)#0.JoinTime), elem(@cltypes.SupportedUptimes))", nil, "the position's age (block time − join time) is compared with each uptime")
-	c.FailsWhen(PC, "lt(time.Time.Sub(sdk.Context.BlockTime(ctx), cl.Keeper.GetPosition(k,ctx,positionId)#0.JoinTime), 0)", "a negative position age is an error", rules.GuardOpt{})
+	// which pools are scaled: strictly above the migration threshold, or listed as migrated (the pool at the threshold
+	// is the last unscaled one)
+	c.Let("STHR", "cl.Keeper.GetSpreadFactorPoolIDMigrationThreshold(k,ctx)#0")
+	c.Let("ITHR", "cl.Keeper.GetIncentivePoolIDMigrationThreshold(k,ctx)#0")
+	c.OnlyWhenReturn(K+"getSpreadFactorScalingFactorForPool", "@cl.perUnitLiqScalingFactor", "gt(poolID,{STHR}) | lookup(@cltypes.MigratedSpreadFactorAccumulatorPoolIDsV25,poolID)#1", "the spread-reward accumulator is scaled only for pools strictly above the threshold or listed as migrated")
+	c.OnlyWhenReturn(K+"getSpreadFactorScalingFactorForPool", "@cl.oneDecScalingFactor", "not(gt(poolID,{STHR})) & not(lookup(@cltypes.MigratedSpreadFactorAccumulatorPoolIDsV25,poolID)#1)", "…and unscaled for every other pool, the one at the threshold included")
+	c.OnlyWhenReturn(K+"getIncentiveScalingFactorForPool", "@cl.perUnitLiqScalingFactor", "gt(poolID,{ITHR}) | lookup(@cltypes.MigratedIncentiveAccumulatorPoolIDs,poolID)#1 | lookup(@cltypes.MigratedIncentiveAccumulatorPoolIDsV24,poolID)#1", "incentive accumulators are scaled only for pools strictly above the threshold or listed as migrated")
+	c.OnlyWhenReturn(K+"getIncentiveScalingFactorForPool", "@cl.oneDecScalingFactor", "not(gt(poolID,{ITHR})) & not(lookup(@cltypes.MigratedIncentiveAccumulatorPoolIDs,poolID)#1) & not(lookup(@cltypes.MigratedIncentiveAccumulatorPoolIDsV24,poolID)#1)", "…and unscaled for every other pool")
+}
+
+// clRedepositRules: redeposit of forfeited incentives (shared by C01 and C08).
+func clRedepositRules(c *rules.Ctx) {
+	const K = "x/concentrated-liquidity.Keeper."
 	// ---- redeposit of forfeited incentives: each uptime accumulator receives only what was forfeited for that uptime
 	const RD = K + "redepositForfeitedIncentives"
 	c.Let("FORF", "elem(elem(scaledForfeitedIncentivesByUptime))")
